@@ -160,6 +160,16 @@ CHECKS = {
         "against the 14/4/5/5/6/6 layout).",
         "Float and coordinate equalities are computed in IEEE doubles by the harness (TLC judges the booleans and the octets); coordinate domain is what the writers accept (non-negative).",
     ),
+    "C15": (
+        "DESIGN.md 5/C15",
+        "TLC frames every observed buffer and walks its token chains with learned token tables (MBXMLDoc.tla on MBXMLVar.tla) and judges MBXML.from_bytes / as_bytes on repository samples and generated documents",
+        "The buffer grammar (documents with announced lengths, inline / inherited constants table, token chains whose value encodings "
+        "follow from the per-document token tables learned through LRRP.get_configuration) is specified in TLA+; for every buffer - the "
+        "repository's LRRP samples alone and 2-3 per buffer, documents assembled from token objects of all 18 LRRP tables with boundary "
+        "and random canonical values, documents built through the token lookup API - TLC computes the framing and the token ids itself and "
+        "compares document count, ids, token ids, re-serialised bytes and (for built documents) token values.",
+        "Documents are sampled; the default constants table cannot be expressed on the wire and is outside; value equality computed by the harness.",
+    ),
 }
 
 NOT_YET = {}
